@@ -153,7 +153,7 @@ ClauseIds == {
  "C12.accept", "C12.effects",
  "C13.rule", "C13.limit", "C13.period", "C13.bounded",
  "C15.validate", "C15.roundtrip",
- "C16.flags", "C16.bidder_level", "C16.price", "C16.released",
+ "C16.flags", "C16.bidder_level", "C16.price", "C16.released", "C16.query",
  "C18.accept", "C18.unchanged",
  "C19.frame", "C19.not_due", "C19.terms", "C19.bid_terms", "C19.ids", "C19.independence",
  "C17.once", "C17.args", "C17.before", "C17.veto" }
@@ -173,7 +173,7 @@ ByProp == [
   C12 |-> {"C12.accept", "C12.effects"},
   C13 |-> {"C13.rule", "C13.limit", "C13.period", "C13.bounded"},
   C15 |-> {"C15.validate", "C15.roundtrip"},
-  C16 |-> {"C16.flags", "C16.bidder_level", "C16.price", "C16.released"},
+  C16 |-> {"C16.flags", "C16.bidder_level", "C16.price", "C16.released", "C16.query"},
   C17 |-> {"C17.once", "C17.args", "C17.before", "C17.veto"},
   C18 |-> {"C18.accept", "C18.unchanged"},
   C19 |-> {"C19.frame", "C19.not_due", "C19.terms", "C19.bid_terms", "C19.ids", "C19.independence"} ]
@@ -467,6 +467,15 @@ Holds(c, step, g, g2) ==
         /\ (pre.auctions[i].type = "B" /\ ~SettledB(i)) => post.auctions[i].matchedPrice = pre.auctions[i].matchedPrice
   [] c = "C16.released" -> \A i \in 1..nPost :
         g2.vestOut[i] = Sum(MapSeq(post.vqs[i], LAMBDA e : IF e.released THEN e.amt ELSE 0))
+  [] c = "C16.query" -> m.a = "Query" =>
+        /\ LET got == step.extra.answer
+               exp == QueryAnswer(pre, m)
+           IN \* "exactly the stored objects that satisfy the request": same objects, none twice; the
+              \* order of a listing (store key order, e.g. raw address bytes) is not part of the property
+              /\ Len(got) = Len(exp)
+              /\ {got[k] : k \in 1..Len(got)} = {exp[k] : k \in 1..Len(exp)}
+        /\ post = pre
+        /\ (ok <=> (m.q \notin {"GetAuction", "GetBid", "GetAllowedBidder"} \/ QueryAnswer(pre, m) # <<>>))
   (* ---------------- C17 hooks ---------------- *)
   [] c = "C17.once" -> (ok /\ pre.nl > 0) =>
         MapSeq(step.hooks, LAMBDA e : <<e.h, e.l>>) = MapSeq(Do(pre, m).hooks, LAMBDA e : <<e.h, e.l>>)
